@@ -25,6 +25,34 @@ pub struct Info {
     pub input_hex: String,
     pub origin: String,
     pub since: Instant,
+    /// kernel thread id of the calling thread (to attribute a process abort to the call it happened in)
+    pub tid: i64,
+}
+
+/// thread id of a thread that raised SIGABRT (allocation failure, stack overflow, abort()); 0 = none
+static ABORT_TID: std::sync::atomic::AtomicI64 = std::sync::atomic::AtomicI64::new(0);
+
+fn gettid() -> i64 {
+    unsafe { libc::syscall(libc::SYS_gettid) as i64 }
+}
+
+/// SIGABRT handler: parks the aborting thread and leaves the diagnosis to the watchdog thread, which has
+/// a stack of its own (the aborting thread may be on the small alternate signal stack after a stack overflow).
+extern "C" fn on_abort(_sig: libc::c_int) {
+    let _ = ABORT_TID.compare_exchange(0, gettid(), Ordering::SeqCst, Ordering::SeqCst);
+    loop {
+        unsafe { libc::sleep(3600) };
+    }
+}
+
+fn install_abort_handler() {
+    unsafe {
+        let mut sa: libc::sigaction = std::mem::zeroed();
+        sa.sa_sigaction = on_abort as extern "C" fn(libc::c_int) as usize;
+        sa.sa_flags = libc::SA_ONSTACK;
+        libc::sigemptyset(&mut sa.sa_mask);
+        libc::sigaction(libc::SIGABRT, &sa, std::ptr::null_mut());
+    }
 }
 
 static INFLIGHT: Mutex<Vec<Info>> = Mutex::new(Vec::new());
@@ -42,6 +70,8 @@ pub enum Iso {
     Panicked(String),
     CpuLimit,
     MemLimit(String),
+    /// killed by SIGABRT / SIGSEGV / SIGBUS / SIGILL / SIGFPE
+    Aborted(String),
     Other(String),
 }
 
@@ -49,6 +79,7 @@ pub fn describe_nontermination(iso: &Iso) -> Option<String> {
     match iso {
         Iso::CpuLimit => Some(format!("did not finish within {LIB_CPU_LIMIT_S} CPU-seconds in a fresh process (unbounded computation)")),
         Iso::MemLimit(m) => Some(format!("exhausted {} GiB of address space in a fresh process ({m})", LIB_MEM_LIMIT >> 30)),
+        Iso::Aborted(m) => Some(format!("aborted the process in a fresh run ({m})")),
         _ => None,
     }
 }
@@ -88,6 +119,7 @@ pub fn isolated_call(entry: &str, input: &[u8]) -> Iso {
         (Some(3), _) => Iso::Panicked(stdout.trim_start_matches("PANIC ").trim().to_string()),
         (_, Some(sig)) if sig == libc::SIGXCPU || sig == libc::SIGKILL => Iso::CpuLimit,
         (_, Some(sig)) if sig == libc::SIGABRT && stderr.contains("memory allocation") => Iso::MemLimit(crate::engine::truncate(&stderr, 200)),
+        (_, Some(sig)) if [libc::SIGABRT, libc::SIGSEGV, libc::SIGBUS, libc::SIGILL, libc::SIGFPE].contains(&sig) => Iso::Aborted(format!("signal {sig}: {}", crate::engine::truncate(stderr.trim(), 200))),
         (c, s) => Iso::Other(format!("exit {c:?} signal {s:?} stderr {}", crate::engine::truncate(&stderr, 200))),
     }
 }
@@ -98,10 +130,15 @@ pub fn init(property: &str, tier: &str, seed: u64, root: PathBuf) {
     *DISTINCT.lock().unwrap() = Some(Default::default());
     static STARTED: std::sync::Once = std::sync::Once::new();
     STARTED.call_once(|| {
+        install_abort_handler();
         std::thread::spawn(|| {
             let mut cleared: HashSet<u64> = Default::default();
             loop {
                 std::thread::sleep(Duration::from_millis(250));
+                let tid = ABORT_TID.load(Ordering::SeqCst);
+                if tid != 0 {
+                    on_process_abort(tid);
+                }
                 let suspect = {
                     let g = INFLIGHT.lock().unwrap();
                     g.iter().find(|f| f.since.elapsed() > Duration::from_secs(SUSPECT_AFTER_S) && !cleared.contains(&f.id)).cloned()
@@ -123,6 +160,33 @@ pub fn init(property: &str, tier: &str, seed: u64, root: PathBuf) {
     });
 }
 
+/// A thread raised SIGABRT. If it did so inside a guarded call and the abort reproduces in a fresh process
+/// the property's handler decides (C17: violation); anything else is a harness problem or not reproducible
+/// and ends the run as INCONCLUSIVE.
+fn on_process_abort(tid: i64) -> ! {
+    let prop = RUN.get().map(|r| r.0.clone()).unwrap_or_default();
+    let info = INFLIGHT.lock().map(|g| g.iter().find(|f| f.tid == tid).cloned()).unwrap_or(None);
+    let Some(info) = info else {
+        println!("INCONCLUSIVE property={prop} the harness process aborted outside any call into the code under test");
+        emergency_exit(&prop, "abort", &json!({"tid": tid}), None)
+    };
+    let input = crate::refimpl::unhex(&info.input_hex).unwrap_or_default();
+    let iso = isolated_call(&info.entry, &input);
+    if describe_nontermination(&iso).is_none() {
+        let case = json!({"entry": info.entry, "input_hex": info.input_hex, "origin": info.origin});
+        println!(
+            "INCONCLUSIVE property={prop} the process aborted inside {} on {} bytes, but the same call ends normally in a fresh process ({iso:?})",
+            info.entry,
+            info.input_hex.len() / 2
+        );
+        emergency_exit(&prop, "abort", &case, None)
+    }
+    match HANDLER.get() {
+        Some(h) => h(&info, &iso),
+        None => default_handler(&info, &iso),
+    }
+}
+
 pub fn set_handler(h: Handler) {
     let _ = HANDLER.set(h);
 }
@@ -133,7 +197,7 @@ pub fn inflight<T>(entry: &str, input: &[u8], origin: &str, f: impl FnOnce() -> 
     let id = NEXT_ID.fetch_add(1, Ordering::Relaxed);
     let input_hex = crate::refimpl::hex_lower(input);
     let key = crate::engine::stable_hash(&(entry, input_hex.as_str()));
-    INFLIGHT.lock().unwrap().push(Info { id, entry: entry.to_string(), input_hex, origin: origin.to_string(), since: Instant::now() });
+    INFLIGHT.lock().unwrap().push(Info { id, entry: entry.to_string(), input_hex, origin: origin.to_string(), since: Instant::now(), tid: gettid() });
     let r = f();
     INFLIGHT.lock().unwrap().retain(|x| x.id != id);
     EVALS.fetch_add(1, Ordering::Relaxed);
@@ -149,7 +213,7 @@ fn default_handler(info: &Info, iso: &Iso) -> ! {
     let case = json!({"entry": info.entry, "input_hex": info.input_hex, "origin": info.origin});
     let prop = RUN.get().map(|r| r.0.clone()).unwrap_or_default();
     println!(
-        "INCONCLUSIVE property={prop} a call into the code under test ({} on {} bytes) does not terminate: {}; termination is decided by C17 (./check C17 quick)",
+        "INCONCLUSIVE property={prop} a call into the code under test ({} on {} bytes) does not end normally: {}; termination and aborts are decided by C17 (./check C17 quick)",
         info.entry,
         info.input_hex.len() / 2,
         describe_nontermination(iso).unwrap_or_default()
@@ -179,10 +243,10 @@ pub fn emergency_exit(prop: &str, sub: &str, case: &Value, failure: Option<&crat
         "property_id": prop, "tier": tier, "seed": seed, "level": "exploration",
         "coverage": {
             "evaluations": evals, "distinct_nontrivial": distinct,
-            "rule": "run ended by the termination watchdog: a call into the code under test did not terminate (confirmed in a fresh process under a CPU/memory limit); the counts are the guarded calls completed until then (distinct by entry point and input)",
+            "rule": "run ended by the termination watchdog: a call into the code under test did not terminate or aborted the process (confirmed in a fresh process under a CPU/memory limit); the counts are the guarded calls completed until then (distinct by entry point and input)",
             "samples": [{"class": "non-terminating", "case": case}],
             "violation_replays": replays,
-            "inconclusive": if failure.is_none() { vec!["non-terminating call; see C17".to_string()] } else { vec![] },
+            "inconclusive": if failure.is_none() { vec!["non-terminating or aborting call; see C17".to_string()] } else { vec![] },
         },
         "assumptions": [], "wall_s": 0.0, "violations": if failure.is_some() { 1 } else { 0 }
     });
